@@ -215,7 +215,7 @@ def compile_level(ctx):
         if ps:
             # .notdef must keep its name (a CFF charset starts with .notdef; renaming it is a user error)
             desc["lib"]["public.postscriptNames"] = {k: v for k, v in ps.items() if k in names and v and k != ".notdef"}
-        flavor, kw = rng.choice([("ttf", {}), ("otf", {"cffVersion": 1}), ("otf", {"cffVersion": 2})])
+        flavor, kw = [("ttf", {}), ("otf", {"cffVersion": 1}), ("otf", {"cffVersion": 2})][i % 3]
         comp = ufo2ft.compileTTF if flavor == "ttf" else ufo2ft.compileOTF
         case = {"font": jsonable(desc), "flavor": flavor, "options": kw}
         try:
@@ -224,10 +224,26 @@ def compile_level(ctx):
                 tt = comp(build_font(desc), useProductionNames=upn, **kw)
                 buf = io.BytesIO(); tt.save(buf); buf.seek(0)
                 fonts.append(TTFont(buf))
+            # the final names do not depend on the outline format: the other two flavours must hand out the very same names
+            others = {}
+            for fl2, kw2 in [("ttf", {}), ("otf", {"cffVersion": 1}), ("otf", {"cffVersion": 2})]:
+                if (fl2, kw2) != (flavor, kw):
+                    t2 = (ufo2ft.compileTTF if fl2 == "ttf" else ufo2ft.compileOTF)(build_font(desc), useProductionNames=True, **kw2)
+                    buf = io.BytesIO(); t2.save(buf); buf.seek(0)
+                    others[fl2 + str(kw2.get("cffVersion", ""))] = TTFont(buf).getGlyphOrder()
         except Exception as e:
             ctx.spec_failure(case, "compile raised %s: %s\n%s" % (type(e).__name__, e, traceback.format_exc()[-1200:]))
             continue
         on, off = fonts
+        # (a source name made only of illegal characters is stripped to the empty string, which a 'post' table cannot carry:
+        # fontTools reads it back as glyphNNNNN -- such fonts are left out of the cross-flavour comparison and counted)
+        if "" in on.getGlyphOrder() or any("" in o for o in others.values()):
+            ctx.klass("empty final name (cross-flavour comparison skipped)")
+            others = {}
+        for fl2, order2 in others.items():
+            if order2 != on.getGlyphOrder():
+                ctx.spec_failure(dict(case, other_flavor=fl2), "final glyph names differ between %s%s %r and %s %r" % (
+                    flavor, kw.get("cffVersion", ""), on.getGlyphOrder(), fl2, order2))
         ctx.count()
         ctx.klass("bytes:%s%s" % (flavor, kw.get("cffVersion", "")))
         ctx.nontriv(("bytes", i, ctx.scale))
